@@ -94,5 +94,11 @@ CLAIMED["C18"] = dict(
     note="Trusted: sa/minieval.py; that 3 stacked pickles exercise every index relation the arm's slices/loops can distinguish (the arm only uses target, target+1 and the ends).",
 )
 
+CLAIMED["C06"] = dict(
+    technique="structural rules on the serialisers (plain concatenation of retained bytes), source-of-bytes and None-vs-truthiness rules in the parser, save/restore pairing on the stream position over a CFG with exceptional edges, boundedness of reads, end positioning and the stacking loop",
+    level="Decides necessary conditions only: dumps/dump/dumps_partial are unfiltered concatenations of opcode.data which prefers the retained source bytes; every parsed opcode's bytes are sliced from the input and offset 0 is treated as a position; every seek/read inside the genops loop is undone on every exit of the iteration so the tokeniser never desynchronises; the parser only positions (never reads) the stream after the last opcode; stacked parsing normalises once and keeps every non-empty parse. Byte equality of dumps() with the input prefix for every opcode encoding and length boundary, and tell() values, are arithmetic over genops positions - not decided. One genuine finding is recorded (non-seekable streams are drained).",
+    note="Trusted: pickletools.genops as a tokeniser that only advances the stream; the idiom tables in sa/props/c06.py.",
+)
+
 _NOT_YET = "checker not built yet in this session (planned per DESIGN.md section 3); nothing is claimed until it exists"
 NOT_APPLICABLE = {p: _NOT_YET for p in [f"C{i:02d}" for i in range(1, 20)]}
